@@ -3,10 +3,10 @@
 // HD44780 cell matrix with cursor; writes past the visible row are recorded as `lcd.overflow`.
 class MockLcdBase {
  public:
-  int id; static int next;
+  int id; static int next; static std::vector<MockLcdBase*> &all() { static std::vector<MockLcdBase*> v; return v; }
   int cols = 16, rows = 2, cx = 0, cy = 0;
   std::vector<std::string> cells;
-  MockLcdBase() : id(next++) {}
+  MockLcdBase() : id(next++) { all().push_back(this); }
   void geom(int c, int r) { cols = c; rows = r; cells.assign(r > 0 ? r : 0, std::string(c > 0 ? c : 0, ' ')); cx = cy = 0; }
   void dump(const char *why) {
     std::string all; for (auto &r : cells) { all += r; all += '\n'; }
